@@ -89,3 +89,13 @@ claim("C14",
       "Decides that look-up, start and delete of the callbacks of one counter are one critical section with de-duplicating registration under the same lock, that on both HandleMessage implementations an accepted reply triggers the response callbacks exactly once iff a reference is present (rejected: never) and an accepted result triggers response and result callbacks once each, and that every trigger is keyed by the inbound msgCounterReference with a ResponseMessage carrying the receiver and the message's remote feature/entity/device. Necessary conditions; callback identity and registration racing arrival are not decided.",
       "Trusted: go/ssa, call resolution; loops unrolled at most once.",
       "DESIGN.md §4 C14")
+claim("C05",
+      "wire-taint + nilability dataflow with dominating-guard facts, validator summaries and caller-established facts; reachability rules on reflection; lock pairing/order in the inbound tree",
+      "Decides, over the ~3400 functions (with instantiations) synchronously reachable from HandleSpineMesssage, that each of ~730 dereferences, field accesses, constant indexes, unchecked assertions and explicit panics on wire-derived optional data is guarded on the same access path (dominating test, validator summary, or a test every wire-carrying caller makes), that the reflective selector match only calls Elem on non-nil pointers, that the decode error is tested first, and that the inbound tree cannot wedge on its own locks or block on a channel. On the pinned tree this found 37 crash sites, all repaired by fix commits. A necessary condition of crash freedom for the repository's own code; dependencies and value-dependent panics are not decided.",
+      "Trusted: go/ssa, call resolution; two invariants are imported from exhaustive table rules (non-empty fct tags, payload types); state-derived nil is outside the taint.",
+      "DESIGN.md §4 C05")
+claim("C19",
+      "writer/reader layout tables + violation-pattern rule on float->integer conversion + provenance of scale and exponent",
+      "Decides only the structural part of the conversions: every layout a textual-form constructor writes is in the parser's layout table and both sides use UTC; the scaled product is rounded, not truncated, before conversion; scale and exponent come from the same decimal count and GetValue multiplies number by ten to the scale; duration writer and reader use the same library and relative end times are rounded to the second. The exactness of the round trips themselves (binary floating point, library arithmetic) is NOT decided by static analysis; the claim is deliberately narrow.",
+      "Trusted: time.Format/ParseInLocation, the period library, math.Round.",
+      "DESIGN.md §4 C19")
